@@ -19,6 +19,7 @@ Definition is_err (v : value) : bool := match v with VErr _ => true | _ => false
 
 Section Tie.
 Variable call_ref : nat -> list pv -> pv.
+Variable prim : string -> list pv -> res pv.
 Variable ctx : pv.              (* the row context handed down unchanged *)
 Variable r : row.
 Variable st : list value.
@@ -48,7 +49,7 @@ Theorem node_unary_src : forall op k kop a,
   op = UNot \/ op = UIsNull \/ op = UIsNotNull ->
   child k a -> (forall x, call_ref kop [PV x] = PV (un op x)) ->
   let flds := [("operand", PRef k); ("operator", PRef kop)] in
-  call_method call_ref node_unary flds [ctx] = expect flds (mev (EUnary op a)).
+  call_method call_ref prim node_unary flds [ctx] = expect flds (mev (EUnary op a)).
 Proof.
   intros op k kop a Hop Hc Hk flds. destruct Hc as [Hc He].
   cbn. rewrite Hc. destruct (mev a) eqn:Ev; try discriminate;
@@ -58,7 +59,7 @@ Qed.
 Theorem node_unary_safe_src : forall k kop a,
   child k a -> (forall x, is_null x = false -> call_ref kop [PV x] = PV (un UNeg x)) ->
   let flds := [("operand", PRef k); ("operator", PRef kop)] in
-  call_method call_ref node_unary_safe flds [ctx] = expect flds (mev (EUnary UNeg a)).
+  call_method call_ref prim node_unary_safe flds [ctx] = expect flds (mev (EUnary UNeg a)).
 Proof.
   intros k kop a [Hc He] Hk flds.
   cbn. rewrite Hc. destruct (mev a) eqn:Ev; try discriminate; try reflexivity;
@@ -71,7 +72,7 @@ Theorem node_binary_src : forall op ka kb kop a b,
   child ka a -> child kb b ->
   (forall x y, is_null x = false -> is_null y = false -> call_ref kop [PV x; PV y] = PV (bin op x y)) ->
   let flds := [("left", PRef ka); ("right", PRef kb); ("operator", PRef kop)] in
-  call_method call_ref node_binary flds [ctx] = expect flds (mev (EBinary op a b)).
+  call_method call_ref prim node_binary flds [ctx] = expect flds (mev (EBinary op a b)).
 Proof.
   intros op ka kb kop a b [Ha Ea] [Hb Eb] Hk flds.
   cbn. rewrite Ha.
@@ -89,7 +90,7 @@ Theorem node_between_src : forall k kl kh a lo hi,
   (is_null (mev a) = false -> is_null (mev lo) = false -> is_null (mev hi) = false ->
    rank (mev lo) = rank (mev a) /\ rank (mev a) = rank (mev hi)) ->
   let flds := [("operand", PRef k); ("lower", PRef kl); ("upper", PRef kh)] in
-  call_method call_ref node_between flds [ctx] = expect flds (mev (EBetween a lo hi)).
+  call_method call_ref prim node_between flds [ctx] = expect flds (mev (EBetween a lo hi)).
 Proof.
   intros k kl kh a lo hi [Ha Ea] [Hl El] [Hh Eh] Hr flds.
   cbn. rewrite Ha.
@@ -122,7 +123,7 @@ Definition and_body : list stmt :=
 Lemma value_of_arg : forall k a loc flds,
   child k a -> lookup "context" loc = Some ctx ->
   let s := write {| locals := loc; fields := flds |} (TName "arg") (PRef k) in
-  PyMini.exec call_ref s (SAssign (TName "value") (XCall (XName "arg") [XName "context"] None)) =
+  PyMini.exec call_ref prim s (SAssign (TName "value") (XCall (XName "arg") [XName "context"] None)) =
   Ok (Next (write s (TName "value") (PV (mev a)))).
 Proof.
   intros k a loc flds Hc Hctx s. pose proof (do_call_child _ _ Hc) as E.
@@ -132,7 +133,7 @@ Qed.
 Lemma and_loop : forall ks args, children ks args -> forall flds loc,
   lookup "context" loc = Some ctx ->
   exists loc',
-  for_loop call_ref and_body "arg" {| locals := loc; fields := flds |} (map PRef ks) =
+  for_loop call_ref prim and_body "arg" {| locals := loc; fields := flds |} (map PRef ks) =
   Ok (match find (fun v => is_null v || negb (truthy v)) (map mev args) with
       | None => Next {| locals := loc'; fields := flds |}
       | Some v => Ret {| locals := loc'; fields := flds |} (PV (if is_null v then VNull else VBool false))
@@ -162,11 +163,11 @@ Proof. induction 1; cbn; congruence. Qed.
 Theorem node_and_src : forall ks args,
   children ks args ->
   let flds := [("args", PList (map PRef ks))] in
-  call_method call_ref node_and flds [ctx] = Ok (flds, PV (mev (EAnd args))).
+  call_method call_ref prim node_and flds [ctx] = Ok (flds, PV (mev (EAnd args))).
 Proof.
   intros ks args Hc flds. rewrite and_table. unfold and_spec.
   unfold call_method, node_and. cbn [f_params f_body bind_params PyMini.exec_block].
-  rewrite (exec_for call_ref "arg" _ _ _ {| locals := [("self", PSelf); ("context", ctx)]; fields := flds |}
+  rewrite (exec_for call_ref prim "arg" _ _ _ {| locals := [("self", PSelf); ("context", ctx)]; fields := flds |}
              (map PRef ks)) by reflexivity.
   fold and_body.
   destruct (and_loop ks args Hc flds [("self", PSelf); ("context", ctx)] eq_refl) as [loc' E].
@@ -182,7 +183,7 @@ Definition or_body : list stmt :=
 Lemma or_loop : forall ks args, children ks args -> forall flds loc acc,
   lookup "context" loc = Some ctx -> lookup "r" loc = Some (PV acc) ->
   exists loc',
-  for_loop call_ref or_body "arg" {| locals := loc; fields := flds |} (map PRef ks) =
+  for_loop call_ref prim or_body "arg" {| locals := loc; fields := flds |} (map PRef ks) =
   Ok (if existsb truthy (map mev args)
       then Ret {| locals := loc'; fields := flds |} (PBool true)
       else Next {| locals := loc'; fields := flds |}) /\
@@ -229,15 +230,15 @@ Qed.
 Theorem node_or_src : forall ks args,
   children ks args ->
   let flds := [("args", PList (map PRef ks))] in
-  call_method call_ref node_or flds [ctx] = Ok (flds, PV (mev (EOr args))).
+  call_method call_ref prim node_or flds [ctx] = Ok (flds, PV (mev (EOr args))).
 Proof.
   intros ks args Hc flds. rewrite or_table. unfold or_spec.
   unfold call_method, node_or. cbn [f_params f_body bind_params PyMini.exec_block].
-  change (PyMini.exec call_ref {| locals := [("self", PSelf); ("context", ctx)]; fields := flds |}
+  change (PyMini.exec call_ref prim {| locals := [("self", PSelf); ("context", ctx)]; fields := flds |}
             (SAssign (TName "r") (XConst (PBool false))))
     with (Ok (Next {| locals := [("self", PSelf); ("context", ctx); ("r", PBool false)]; fields := flds |})).
   cbn [bind].
-  rewrite (exec_for call_ref "arg" _ _ _
+  rewrite (exec_for call_ref prim "arg" _ _ _
              {| locals := [("self", PSelf); ("context", ctx); ("r", PBool false)]; fields := flds |}
              (map PRef ks)) by reflexivity.
   fold or_body.
@@ -255,7 +256,7 @@ Definition coalesce_body : list stmt :=
 Lemma coalesce_loop : forall ks args, children ks args -> forall flds loc,
   lookup "context" loc = Some ctx ->
   exists loc',
-  for_loop call_ref coalesce_body "arg" {| locals := loc; fields := flds |} (map PRef ks) =
+  for_loop call_ref prim coalesce_body "arg" {| locals := loc; fields := flds |} (map PRef ks) =
   Ok (match find (fun v => negb (is_null v)) (map mev args) with
       | None => Next {| locals := loc'; fields := flds |}
       | Some v => Ret {| locals := loc'; fields := flds |} (PV v)
@@ -278,11 +279,11 @@ Qed.
 Theorem node_coalesce_src : forall ks args,
   children ks args ->
   let flds := [("args", PList (map PRef ks))] in
-  call_method call_ref node_coalesce flds [ctx] = Ok (flds, PV (mev (ECoalesce args))).
+  call_method call_ref prim node_coalesce flds [ctx] = Ok (flds, PV (mev (ECoalesce args))).
 Proof.
   intros ks args Hc flds. rewrite coalesce_table. unfold coalesce_spec.
   unfold call_method, node_coalesce. cbn [f_params f_body bind_params PyMini.exec_block].
-  rewrite (exec_for call_ref "arg" _ _ _ {| locals := [("self", PSelf); ("context", ctx)]; fields := flds |}
+  rewrite (exec_for call_ref prim "arg" _ _ _ {| locals := [("self", PSelf); ("context", ctx)]; fields := flds |}
              (map PRef ks)) by reflexivity.
   fold coalesce_body.
   destruct (coalesce_loop ks args Hc flds [("self", PSelf); ("context", ctx)] eq_refl) as [loc' E].
@@ -290,7 +291,7 @@ Proof.
 Qed.
 
 Theorem node_constant_src : forall v,
-  call_method call_ref node_constant [("value", PV v)] [ctx] = Ok ([("value", PV v)], PV v).
+  call_method call_ref prim node_constant [("value", PV v)] [ctx] = Ok ([("value", PV v)], PV v).
 Proof. reflexivity. Qed.
 
 (* ---------------------------------------------------------------- the NULL-strict wrapper of query_env.function *)
@@ -299,7 +300,7 @@ Definition none_check_body : list stmt :=
 
 Lemma none_loop : forall vs flds loc,
   exists loc',
-  for_loop call_ref none_check_body "arg" {| locals := loc; fields := flds |} (map PV vs) =
+  for_loop call_ref prim none_check_body "arg" {| locals := loc; fields := flds |} (map PV vs) =
   Ok (if existsb is_null vs then Ret {| locals := loc'; fields := flds |} PNone
       else Next {| locals := loc'; fields := flds |}) /\
   (forall x, String.eqb x "arg" = false -> lookup x loc' = lookup x loc).
@@ -320,7 +321,7 @@ Proof.
 Qed.
 
 Definition comp_elt (loc flds : env) (v : pv) : res pv :=
-  bind (PyMini.eval call_ref (write {| locals := loc; fields := flds |} (TName "operand") v)
+  bind (PyMini.eval call_ref prim (write {| locals := loc; fields := flds |} (TName "operand") v)
           (XCall (XName "operand") [XName "row"] None)) (fun p => Ok (snd p)).
 
 Lemma comp_elt_child loc flds k a :
@@ -352,26 +353,26 @@ Let flds := wrapper_fields ks c.
 
 Lemma wrapper_prefix : forall body_tail,
   exists loc',
-  PyMini.exec_block call_ref {| locals := [("self", PSelf); ("row", ctx)]; fields := flds |}
+  PyMini.exec_block call_ref prim {| locals := [("self", PSelf); ("row", ctx)]; fields := flds |}
     (SAssign (TName "args") (XListComp (XCall (XName "operand") [XName "row"] None) "operand"
-                               (XAttr (XName "self") "operands"))
+                               (XAttr (XName "self") "operands") None)
      :: SFor "arg" (XName "args") none_check_body :: body_tail) =
   (if existsb is_null vs then Ok (Ret {| locals := loc'; fields := flds |} PNone)
-   else PyMini.exec_block call_ref {| locals := loc'; fields := flds |} body_tail) /\
+   else PyMini.exec_block call_ref prim {| locals := loc'; fields := flds |} body_tail) /\
   lookup "args" loc' = Some (PList (map PV vs)) /\ lookup "row" loc' = Some ctx /\ lookup "self" loc' = Some PSelf.
 Proof.
   intros tail. cbn [PyMini.exec_block].
-  assert (E1 : PyMini.exec call_ref {| locals := [("self", PSelf); ("row", ctx)]; fields := flds |}
+  assert (E1 : PyMini.exec call_ref prim {| locals := [("self", PSelf); ("row", ctx)]; fields := flds |}
             (SAssign (TName "args") (XListComp (XCall (XName "operand") [XName "row"] None) "operand"
-                               (XAttr (XName "self") "operands"))) =
+                               (XAttr (XName "self") "operands") None)) =
           Ok (Next {| locals := [("self", PSelf); ("row", ctx); ("args", PList (map PV vs))]; fields := flds |})).
   { cbn [PyMini.exec]. 
-    rewrite (eval_listcomp call_ref _ _ _ _ {| locals := [("self", PSelf); ("row", ctx)]; fields := flds |}
+    rewrite (eval_listcomp call_ref prim _ _ _ _ {| locals := [("self", PSelf); ("row", ctx)]; fields := flds |}
                (map PRef ks)) by reflexivity.
     fold (comp_elt [("self", PSelf); ("row", ctx)] flds).
     rewrite (operands_comp ks args [("self", PSelf); ("row", ctx)] flds Hch eq_refl). reflexivity. }
   rewrite E1. cbn [bind].
-  rewrite (exec_for call_ref "arg" _ _ _
+  rewrite (exec_for call_ref prim "arg" _ _ _
              {| locals := [("self", PSelf); ("row", ctx); ("args", PList (map PV vs))]; fields := flds |}
              (map PV vs)) by reflexivity.
   destruct (none_loop vs flds [("self", PSelf); ("row", ctx); ("args", PList (map PV vs))]) as [loc' [E R]].
@@ -386,7 +387,7 @@ Proof. reflexivity. Qed.
 (* plain functions: func( *args ) *)
 Theorem func_wrapper_plain_src :
   call_ref 0 (map PV vs) = PV (apply_func f vs) ->
-  call_method call_ref func_wrapper_plain flds [ctx] = expect flds (mev (EFunc f args)).
+  call_method call_ref prim func_wrapper_plain flds [ctx] = expect flds (mev (EFunc f args)).
 Proof.
   intros Hf. rewrite mev_func. unfold call_method, func_wrapper_plain.
   cbn [f_params f_body bind_params]. fold none_check_body.
@@ -401,7 +402,7 @@ Qed.
 (* pass_row: func(row, *args ) *)
 Theorem func_wrapper_row_src : forall g : list pv -> value,
   call_ref 0 (ctx :: map PV vs) = PV (g (map PV vs)) ->
-  call_method call_ref func_wrapper_row flds [ctx] =
+  call_method call_ref prim func_wrapper_row flds [ctx] =
   expect flds (if existsb is_null vs then VNull else g (map PV vs)).
 Proof.
   intros g Hf. unfold call_method, func_wrapper_row.
@@ -418,7 +419,7 @@ Qed.
 (* pass_context: func(self.context, *args ) *)
 Theorem func_wrapper_context_src : forall g : list pv -> value,
   call_ref 0 (c :: map PV vs) = PV (g (map PV vs)) ->
-  call_method call_ref func_wrapper_context flds [ctx] =
+  call_method call_ref prim func_wrapper_context flds [ctx] =
   expect flds (if existsb is_null vs then VNull else g (map PV vs)).
 Proof.
   intros g Hf. unfold call_method, func_wrapper_context.
